@@ -448,6 +448,12 @@ def judge(ctx, p, pt, il, ml, dl, stats):
         return
     # correspondence
     if p["unsupported"]:
+        if any(s[0] == "br" for s in p["stmts"]):
+            # the Float model returns NaN for the functions it cannot reproduce, so a comparison that depends on such a value may select
+            # the other branch in the model: its tape is then the tape of a different program.  Such points are judged by the independent
+            # oracle alone (false alarm of the thorough tier, seed 1, session 4)
+            stats["oracle_only_points_branch_with_unsupported_function"] = stats.get("oracle_only_points_branch_with_unsupported_function", 0) + 1
+            return
         tol = "lhs" if ({"Max", "Min"} & G.funcs_used(p["stmts"])) else None
         stats["structure_only_points"] += 1
     elif p["exact"]:
